@@ -17,11 +17,48 @@ struct lbuf *ex_lbuf(void) { return NULL; }
 #endif
 void harness(void)
 {
-	char s[LL * 4 + 2];
-	int cls[LL + 2];	/* 0 Latin/digit, 1 neutral, 2 RTL, 3 mark character */
-	int ord[LL + 2], want[LL + 2], n, i, j, len, seen = 0, dir, marks = 0;
+	char s[LL * 4 + 24];
+	int cls[LL + 12];	/* 0 Latin/digit, 1 neutral, 2 RTL, 3 mark character */
+	int ord[LL + 12], want[LL + 12], n, i, j, len, seen = 0, dir, marks = 0;
 	char *p;
 	dir_init();
+#ifdef NESTED
+	/* a nested mark \*[..] inside a right-to-left line: the whole mark is one left-to-right unit, so its characters
+	 * appear reversed as a block (the line itself runs right to left) and nothing inside is reversed a second time */
+	{
+		int pre = symx_conc(symx_u8("pre") & 1), post = symx_conc(symx_u8("post") & 1), k, p, q;
+		len = 0;
+		n = 0;
+		if (pre) { len += sl_copy(s + len, "\xd8\xa8"); n++; }
+		p = n;
+		len += sl_copy(s + len, "\\*[");
+		n += 3;
+		for (k = 0; k < 3; k++) {
+			unsigned char c = symx_u8("in");
+			symx_assume(c == 'a' || c == 'b' || c == ' ' || c == '1');
+			symx_assume(k != 0 || c != ' ');
+			s[len++] = c;
+			n++;
+		}
+		s[len++] = ']';
+		n++;
+		q = n;
+		if (post) { len += sl_copy(s + len, "\xd8\xa7"); n++; }
+		s[len] = '\n';
+		s[len + 1] = 0;
+		n++;
+		xtd = -2;
+		for (i = 0; i < n; i++)
+			ord[i] = i;
+		dir_reorder(s, ord);
+		symx_observe_mem("s", s, len + 2);
+		for (i = 0; i < n; i++)
+			symx_assert(ord[i] == (i >= p && i < q ? p + q - 1 - i : i), "a nested mark in a right-to-left line is reversed once, as one block");
+		symx_reach("nested");
+		symx_reach("end");
+		return;
+	}
+#endif
 #ifdef MARKS
 	len = slots_text(s, "ln", LL, SL_ASCII | SL_AR1 | SL_AR2, "a1 $\\{}[]*", &n);
 #else
